@@ -3,7 +3,9 @@
 
   seeded.py confirm <prop> <k> <outdir>   confirm change k produced under <outdir> in a fresh scratch worktree,
                                           and store it as /verif/seeded/<prop>-<k>/ if everything holds
-  seeded.py eval [<id> ...] [--tier quick|thorough]
+  seeded.py eval [<id> ...] [--tier quick|thorough] [--workers N] [--verif-dir D --key K]
+                                          (--verif-dir: run the checks of another copy of /verif, e.g. a snapshot of an
+                                           earlier commit, and store the outcome under eval[K] without touching the table)
                                           apply each stored patch to /repo, run the property's check, undo, record
   seeded.py table                         regenerate /verif/seeded/README.md
 """
@@ -79,7 +81,7 @@ def first_para(path):
     except Exception:
         return ""
 
-def evaluate(ids, tier, scratch=True):
+def evaluate(ids, tier, scratch=True, vdir=None, key=None, workers=0):
     """scratch=True: evaluate against a scratch worktree of /repo (VX_REPO), so that other runs are not disturbed;
     scratch=False: the official procedure (git -C /repo apply; run; git -C /repo checkout -- .)."""
     base = os.path.join(V, "seeded")
@@ -104,12 +106,15 @@ def evaluate(ids, tier, scratch=True):
                 print(sid, "patch does not apply", out); continue
             try:
                 t0 = time.time()
-                env = f"VX_REPO={repo} VX_EVIDENCE_DIR=/tmp/seeded-evidence VX_REPLAY_DIR=/tmp/seeded-replays"
-                rc, out = sh(f"{env} ./bin/qsym check -property {prop} -tier {tier}", cwd=V, timeout=7200)
+                env = f"VX_REPO={repo} VX_EVIDENCE_DIR=/tmp/seeded-evidence-{os.getpid()} VX_REPLAY_DIR=/tmp/seeded-replays-{os.getpid()}"
+                if vdir: env += f" VX_VERIF={vdir}"
+                wk = f" -workers {workers}" if workers else ""
+                rc, out = sh(f"{env} ./bin/qsym check -property {prop} -tier {tier}{wk}", cwd=vdir or V, timeout=7200)
                 viol = [l for l in out.splitlines() if l.startswith("VIOLATION") or l.startswith("  harness=")]
                 summ = [l for l in out.splitlines() if l.startswith("SUMMARY")]
                 incon = [l for l in out.splitlines() if l.startswith("INCONCLUSIVE") or l.startswith("UNCONFIRMED") or l.startswith("ERROR")]
-                meta.setdefault("eval", {})[tier] = {"exit": rc, "caught": rc == 1, "wall_s": round(time.time() - t0, 1), "against": "scratch worktree of /repo" if scratch else "/repo",
+                meta = json.load(open(os.path.join(d, "meta.json")))
+                meta.setdefault("eval", {})[key or tier] = {"exit": rc, "caught": rc == 1, "wall_s": round(time.time() - t0, 1), "against": "scratch worktree of /repo" if scratch else "/repo",
                                                     "violations": viol[:6], "summary": summ[-1:], "other": incon[:4]}
                 json.dump(meta, open(os.path.join(d, "meta.json"), "w"), indent=1)
                 print(sid, tier, "exit", rc, "CAUGHT" if rc == 1 else "MISSED", f"{time.time()-t0:.0f}s", (viol[1] if len(viol) > 1 else "")[:170], (incon[0] if incon and rc != 1 else "")[:160])
@@ -119,7 +124,8 @@ def evaluate(ids, tier, scratch=True):
     finally:
         if scratch:
             sh(f"git -C /repo worktree remove --force {repo}")
-    table()
+    if not key:
+        table()
 
 def table():
     base = os.path.join(V, "seeded")
@@ -156,7 +162,11 @@ if __name__ == "__main__":
             tier = a[a.index("--tier") + 1]; a = [x for x in a if x not in ("--tier", tier)]
         scratch = "--in-repo" not in a
         a = [x for x in a if x != "--in-repo"]
-        evaluate(a[1:], tier, scratch)
+        opts = {}
+        for o in ("--verif-dir", "--key", "--workers"):
+            if o in a:
+                opts[o] = a[a.index(o) + 1]; k = a.index(o); del a[k:k + 2]
+        evaluate(a[1:], tier, scratch, opts.get("--verif-dir"), opts.get("--key"), int(opts.get("--workers", 0)))
     elif a and a[0] == "table":
         table()
     else:
